@@ -1,0 +1,17 @@
+//go:build verif
+
+package nflog
+
+import pb "github.com/prometheus/alertmanager/nflog/nflogpb"
+
+// VerifQueryKey returns the receiver and group key a list of query parameters selects.
+// Used by the verification harness to tell which (group, integration) a recorded Query call belongs to.
+func VerifQueryKey(params ...QueryParam) (*pb.Receiver, string) {
+	q := &query{}
+	for _, p := range params {
+		if err := p(q); err != nil {
+			return nil, ""
+		}
+	}
+	return q.recv, q.groupKey
+}
